@@ -1,22 +1,29 @@
 #!/usr/bin/env python3
 """regex2coq: translate the two `(?x)` regular expressions of sophia_iri into Coq terms.
 
-    python3 regex2coq.py <repo_root> <out_dir>        writes <out_dir>/RegexAtoms.v, RegexSrc.v, IriWiring.v
-    python3 regex2coq.py --word "f 3⋅f 9" [<repo_root>]   atoms of a `ka` counter-example -> string
+    python3 regex2coq.py <repo_root> <out_dir>     writes <out_dir>/RegexAtoms.v, RegexSrc.v, IriWiring.v
+    python3 regex2coq.py --word "f 3⋅f 9"          atoms of a `ka` counter-example -> concrete string
+    python3 regex2coq.py --frozen <repo_root> <out.v> <Module>   frozen copy of a revision (C09/PreFix.v)
+    gen_regex(root) -> (ok, info)                  translator entry point for ./check (writes <root>/coq/gen)
+    ka_extra(root, tier, seed, summaries)          `extra` hook for ./check: failed `ka` -> failing input
 
 The translator reads IRI_REGEX_SRC and IRELATIVE_REF_REGEX_SRC from <repo_root>/iri/src/_regex.rs
 on every run, parses the subset of the Rust `regex` syntax they use (verbose mode: white space and
-`#` comments ignored; groups `( )` `(?: )`; alternation; `* + ? {m} {m,n}`; literals and
+`#` comments ignored; groups `( )` `(?: )`; alternation; `* + ? {m} {m,n} {m,}`; literals and
 backslash-escaped punctuation; classes with ranges and `\\u{..}` / `\\xHH` escapes; `^` only as the
-first and `$` only as the last token) and FAILS LOUDLY on anything else.  For each regex it emits
-  (c) the regex itself as a term of type `rex (list (N*N))` (leaves are the character classes of
-      the source, as lists of inclusive code point ranges) -- the executable matcher runs on this;
-  (a) the same regex over the fixed atom vocabulary ATOMS below, type `rex N` (each class is
-      the sum of the atoms it covers) -- the term `ka` works on;
-  (b) the atom table (code point ranges -> atom), `atom_table`.
+first and `$` only as the last token) and FAILS LOUDLY on anything else (also when the way the
+validators use the two constants changes).  For each regex it emits into RegexSrc.v
+  (c) the regex itself as a term of type `rex cclass` (leaves are the character classes of the
+      source, lists of inclusive code point ranges) -- the executable matcher runs on this;
+  (a) the same regex over the fixed atom vocabulary ATOMS below, type `rex N` (each class is the
+      sum of the atoms it covers) -- a cross-check of the abstraction that Coq computes itself;
+and into RegexAtoms.v (stable: it does not depend on the sources)
+  (b) the type `rex`, the atom table (code point ranges -> atom) and atom representatives.
+`x?` is `x | eps`, `x+` is `x x*`, `x{m,n}` is `x^m (eps | x (eps | ...))`.
 A class whose boundaries do not align with the atoms is a translator failure (the atom table must
 then be refined by hand).  Coq re-checks the alignment and that (a) is the abstraction of (c)
 (C09/Properties.v), so only the parser is trusted, and it is exercised by the correspondence run.
+IriWiring.v records which oxiri entry point BaseIri::resolve uses for typed references.
 """
 import hashlib, os, re, sys
 
@@ -531,7 +538,7 @@ def extract_sources(repo_root):
 def resolve_wiring(repo_root):
     """how BaseIri::resolve treats a typed (already validated) reference in iri/src/resolve.rs:
     True  = oxiri's checked `resolve`, whose Result is unwrapped by Resolvable::output_abs (current code);
-    False = `resolve_unchecked` selected by Resolvable::KNOWN_VALID (build/proposed/C09-resolve.diff)."""
+    False = `resolve_unchecked` selected by Resolvable::KNOWN_VALID (build/proposed/C09-resolve-optional.diff)."""
     path = os.path.join(repo_root, "iri/src/resolve.rs")
     text = open(path, encoding="utf8").read()
     m = re.search(r"pub fn resolve<R: Resolvable<String>>\(&self, iri: R\) -> R::OutputAbs \{(.*?)\n    \}", text, re.S)
@@ -582,7 +589,7 @@ def translate(repo_root):
         text += "Definition %s_atoms : rex N :=\n  %s.\n" % (coqname, abst)
     wiring_text = ("(* GENERATED by lib/regex2coq.py from %s -- do not edit. *)\n"
                    "(* Does BaseIri::resolve run oxiri's CHECKED resolve on a typed (already validated) reference and\n"
-                   "   unwrap its Result (true: the code before build/proposed/C09-resolve.diff), or resolve_unchecked\n"
+                   "   unwrap its Result (true: the code before build/proposed/C09-resolve-optional.diff), or resolve_unchecked\n"
                    "   selected by Resolvable::KNOWN_VALID (false)? *)\n"
                    "Definition typed_resolve_is_checked : bool := %s.\n"
                    % ("<repo>/iri/src/resolve.rs", "true" if checked else "false"))
